@@ -1,5 +1,6 @@
 """Glue between the symbolic evaluator and the rules: oracle evaluation, comparison with the definiteness policy."""
 import ast
+from fractions import Fraction as F
 from fractions import Fraction
 from . import alg
 from .alg import Rat, C
@@ -205,6 +206,26 @@ def check_equal(rep, rule, key, where, actual, expected, what, undecided_note=''
         rep.violated(rule, key, where, what + ': the code computes a different function than the reference formula',
                      expected=show(expected), actual=show(actual))
     else:
+        a_, e_ = (actual.rat if isinstance(actual, CallV) else actual), (expected.rat if isinstance(expected, CallV) else expected)
+        r2, note = case_split(a_, e_)
+        if r2 == 'equal':
+            rep.holds(rule, key, where, what + ': ' + note)
+            return 'equal'
+        if r2 == 'different':
+            rep.violated(rule, key, where, what + ': a special-case branch of the code departs from the reference formula: ' + note,
+                         expected=show(expected), actual=show(actual))
+            return 'different'
+        if r2 == 'unknown' and isinstance(a_, Rat) and isinstance(e_, Rat) and not has_unknown(a_) and not has_unknown(e_):
+            # structurally not recognised equal; exhibit in-domain points where the two forms take macroscopically different values
+            try:
+                wit = alg.numeric_witness(a_, e_, _DefaultRanges())
+            except RecursionError:
+                wit = None
+            if wit is not None:
+                pt, va, vb = wit
+                rep.violated(rule, key, where, what + ': the code and the reference formula take different values, e.g. at %s: %.12g instead of %.12g' % (
+                    ', '.join('%s=%.5g' % kv for kv in sorted(pt.items())[:8]), va.real, vb.real), expected=show(expected), actual=show(actual))
+                return 'different'
         why = ''
         if isinstance(actual, Rat) and has_unknown(actual):
             why = ' (code form contains constructs outside the subset: %s)' % '; '.join(unknown_reasons(actual)[:3])
@@ -262,3 +283,159 @@ def to_rat(x):
     if isinstance(x, Rat):
         return x
     return C(Fraction(x))
+
+
+# ------------------------------------------------------------------------------------------------ special-case branches
+def _cond_atoms(r, out, seen):
+    """equality tests (eq / ne atoms against a constant) occurring at any depth"""
+    if not isinstance(r, Rat):
+        return
+    for k in r.atoms(deep=False):
+        if k in seen:
+            continue
+        seen.add(k)
+        a = alg.TABLE.atoms[k]
+        if a.kind != 'fn':
+            continue
+        if a.name in ('eq', 'ne') and len(a.args) == 2 and all(isinstance(x, Rat) for x in a.args):
+            if a.args[0].as_fraction() is not None or a.args[1].as_fraction() is not None:
+                out.append(a)
+        for x in a.args:
+            _cond_atoms(x, out, seen)
+
+
+def fold_conditions(r):
+    """evaluate comparison atoms whose arguments became constants, then the and/or/not/ite atoms that depend on them"""
+    def f(a):
+        if a.kind != 'fn':
+            return None
+        args = a.args
+        if a.name in ('lt', 'le', 'eq', 'ne', 'gt', 'ge') and len(args) == 2 and all(isinstance(x, Rat) for x in args):
+            d = (args[0] - args[1]).as_fraction()
+            if d is not None:
+                return C(1 if {'lt': d < 0, 'le': d <= 0, 'eq': d == 0, 'ne': d != 0, 'gt': d > 0, 'ge': d >= 0}[a.name] else 0)
+            return None
+        if a.name in ('and', 'or') and all(isinstance(x, Rat) for x in args):
+            vals = [x.as_fraction() for x in args]
+            if a.name == 'or' and any(v is not None and v != 0 for v in vals):
+                return C(1)
+            if a.name == 'and' and any(v is not None and v == 0 for v in vals):
+                return C(0)
+            rest = [x for x, v in zip(args, vals) if v is None]
+            if not rest:
+                return C(1 if a.name == 'and' else 0)
+            if len(rest) == 1:
+                return rest[0]
+            return None
+        if a.name == 'not' and isinstance(args[0], Rat):
+            v = args[0].as_fraction()
+            if v is not None:
+                return C(0 if v else 1)
+        if a.name == 'truthy' and isinstance(args[0], Rat):
+            v = args[0].as_fraction()
+            if v is not None:
+                return C(1 if v else 0)
+        if a.name == 'ite' and isinstance(args[0], Rat):
+            v = args[0].as_fraction()
+            if v is not None:
+                return args[1] if v else args[2]
+        return None
+    prev = None
+    cur = r
+    for _ in range(8):
+        cur = alg.map_atoms(cur, f)
+        if prev is not None and cur.equals(prev):
+            break
+        prev = cur
+    return cur
+
+
+def solve_special(atom):
+    """for eq/ne(E, c): an input symbol s and value v with E[s := v] == c; None when no single-symbol substitution does it"""
+    E, c = atom.args
+    if E.as_fraction() is not None:
+        E, c = c, E
+    cf = c.as_fraction()
+    if cf is None:
+        return None
+    for k in sorted(E.atoms(deep=True)):
+        a = alg.TABLE.atoms[k]
+        if a.kind != 'sym' or '@' in a.name:
+            continue
+        for v in (cf, F(0)):
+            try:
+                val = fold_conditions(alg.subst(E, {k: C(v)}))
+                full = alg.unfold_all(val) if alg.def_atoms(val) else val
+            except ZeroDivisionError:
+                continue
+            if full is not None and full.as_fraction() == cf:
+                return a, v
+    return None
+
+
+def case_split(actual, expected):
+    """decide actual == expected when the code (not the reference) branches on equality tests of its inputs:
+    generic case (all such tests false) must agree, and each special input must agree as well.
+    -> ('equal' | 'different' | 'unknown', explanation)"""
+    if not (isinstance(actual, Rat) and isinstance(expected, Rat)):
+        return 'unknown', ''
+    ca, cb = [], []
+    _cond_atoms(actual, ca, set())
+    _cond_atoms(expected, cb, set())
+    idb = set(a.id for a in cb)
+    special = [a for a in ca if a.id not in idb]
+    if not special or len(special) > 4:
+        return 'unknown', ''
+    # generic case
+    gen = alg.subst(actual, dict((a.id, C(0 if a.name == 'eq' else 1)) for a in special))
+    gen = fold_conditions(gen)
+    r = alg.decide_equal(gen, expected)
+    if r != 'equal':
+        return 'unknown', ''
+    notes = []
+    for a in special:
+        sol = solve_special(a)
+        if sol is None:
+            return 'unknown', 'special case %s not solvable for one input' % alg.fmt(Rat.atom(a), 3)
+        s, v = sol
+        try:
+            la = fold_conditions(alg.subst(actual, {s.id: C(v)}))
+            lb = fold_conditions(alg.subst(expected, {s.id: C(v)}))
+        except ZeroDivisionError:
+            return 'unknown', 'reference not defined at %s = %s' % (s.name, v)
+        r2 = alg.decide_equal(la, lb)
+        if r2 == 'different':
+            return 'different', 'for %s = %s (the code tests %s) the code returns %s where the formula gives %s' % (
+                s.name, v, alg.fmt(Rat.atom(a), 3), alg.fmt(la, 3)[:160], alg.fmt(lb, 3)[:160])
+        if r2 != 'equal':
+            wit = alg.numeric_witness(la, lb, _DefaultRanges())
+            if wit is not None:
+                pt, va, vb = wit
+                return 'different', 'for %s = %s (the code tests %s) the code and the formula differ, e.g. at %s: %.9g instead of %.9g' % (
+                    s.name, v, alg.fmt(Rat.atom(a), 2)[:80], ', '.join('%s=%.4g' % kv for kv in sorted(pt.items())[:6]), va.real, vb.real)
+            return 'unknown', 'special case %s = %s not decided' % (s.name, v)
+        notes.append('%s = %s' % (s.name, v))
+    return 'equal', 'generic case and special inputs %s agree' % ', '.join(notes)
+
+
+class _DefaultRanges(dict):
+    """plausible in-domain ranges by symbol name (witness points only; equality is never concluded from them)"""
+
+    def __contains__(self, k):
+        return True
+
+    def __getitem__(self, k):
+        n = k.lower()
+        if 'inversef' in n:
+            return (150.0, 400.0)
+        if 'semimaj' in n or 'semimin' in n:
+            return (6.3e6, 6.4e6)
+        if n.startswith('lat') or '.lat' in n:
+            return (-70.0, 70.0)
+        if n.startswith('lon') or '.lon' in n:
+            return (-170.0, 170.0)
+        if 'east' in n:
+            return (2.0e5, 8.0e5)
+        if 'north' in n:
+            return (1.0e6, 9.0e6)
+        return (0.3, 0.9)
